@@ -416,6 +416,7 @@ func runC05(res *Result, d *Driver, tier string, seed uint64) {
 		os.WriteFile(filepath.Join(sc.dir, "rwfile"), []byte("content-of-rwfile"), 0666)
 	}
 	c05Planted(res, sc, rng, tier)
+	c05SeveralConfigurations(res, sc, rng, tier)
 	c05Propagation(res, sc)
 	// a mask that cannot be applied (its parent is a file): the container must not come up half built (root still writable)
 	{
@@ -702,4 +703,116 @@ func c05Planted(res *Result, sc *c05Scratch, rng *Rng, tier string) {
 	os.Remove(victim)
 	os.WriteFile(p("rofile"), []byte("content-of-rofile"), 0666)
 	os.WriteFile(p("rwfile"), []byte("content-of-rwfile"), 0666)
+}
+
+// c05SeveralConfigurations: an application prepares several sandbox configurations before it uses any of them (all
+// derived from the library's default root file system, or from an empty builder): each sandbox must get the table its own
+// builder calls declared, whatever was declared for the others in between.
+func c05SeveralConfigurations(res *Result, sc *c05Scratch, rng *Rng, tier string) {
+	p := func(x string) string { return filepath.Join(sc.dir, x) }
+	n := 4
+	if tier == "thorough" {
+		n = 40
+	}
+	for it := 0; it < n; it++ {
+		base := func() *mount.Builder {
+			if it%2 == 0 {
+				return mount.NewDefaultBuilder()
+			}
+			return mount.NewBuilder().WithBind("/usr", "usr", true)
+		}
+		// three configurations that differ in what they put at /w and /data, prepared one after the other
+		type cfg struct {
+			name string
+			b    *mount.Builder
+			want map[string]string // mount point -> "tmpfs|rw" / "host|ro" / "host|rw"
+		}
+		mk := []func() cfg{
+			func() cfg {
+				return cfg{"tmpfs at w", base().WithTmpfs("w", "size=4m"), map[string]string{"/w": "tmpfs|rw"}}
+			},
+			func() cfg {
+				return cfg{"writable host directory at w", base().WithBind(p("rwdir"), "w", false), map[string]string{"/w": "host|rw"}}
+			},
+			func() cfg {
+				return cfg{"tmpfs at w, read-only host directory at data", base().WithTmpfs("w", "size=4m").WithBind(p("rodir"), "data", true), map[string]string{"/w": "tmpfs|rw", "/data": "host|ro"}}
+			},
+			func() cfg {
+				return cfg{"read-only host directory at w", base().WithBind(p("rodir2"), "w", true), map[string]string{"/w": "host|ro"}}
+			},
+		}
+		// a random order of preparation
+		for i := len(mk) - 1; i > 0; i-- {
+			j := rng.Intn(i + 1)
+			mk[i], mk[j] = mk[j], mk[i]
+		}
+		var cfgs []cfg
+		for _, f := range mk {
+			cfgs = append(cfgs, f())
+		}
+		var order []string
+		for _, c := range cfgs {
+			order = append(order, c.name)
+		}
+		for ci, c := range cfgs {
+			for _, impl := range []string{"raw", "container"} {
+				if tier != "thorough" && (ci+it)%2 == 0 && impl == "raw" {
+					continue
+				}
+				b := &mount.Builder{Mounts: append([]mount.Mount{}, c.b.Mounts...)}
+				if impl == "container" {
+					b = b.WithBind("/dev/null", "dev/null", false)
+				}
+				b = b.FilterNotExist()
+				var info []string
+				sync := func(pid int) error { info, _ = c05MountInfo(pid); return nil }
+				var r runner.Result
+				if impl == "raw" {
+					root, _ := os.MkdirTemp("", "verif-c05-root-")
+					mounts, err := b.Build()
+					if err != nil {
+						fatal("build mounts: %v", err)
+					}
+					r, _ = runUnshareProbe(RunSpec{Script: "touch /w/probe_new; exit 0", SyncFunc: sync, WorkDir: "/"}, root, mounts)
+					os.RemoveAll(root)
+				} else {
+					env, err := newEnv(container.Builder{Mounts: b.Mounts, WorkDir: "/"})
+					if err != nil {
+						res.Mismatch(Mismatch{Kind: "oracle", What: "container with this mount table could not be built", Input: c.name, Impl: err.Error(), Oracle: "unknown"})
+						continue
+					}
+					r, _ = env.runProbe(RunSpec{Script: "touch /w/probe_new; exit 0", SyncFunc: sync}, false)
+					env.Close()
+				}
+				os.Remove(p("rwdir/probe_new"))
+				key := fmt.Sprintf("several configurations prepared in the order %v (from %s); sandbox %q run by %s", order, map[bool]string{true: "NewDefaultBuilder", false: "NewBuilder"}[it%2 == 0], c.name, impl)
+				res.Case(key, true, "several-configurations")
+				if r.Status != runner.StatusNormal {
+					res.Mismatch(Mismatch{Kind: "oracle", What: "sandboxed probe did not run normally", Input: key, Impl: fmt.Sprintf("%v %s", r.Status, r.Error), Oracle: "unknown"})
+					continue
+				}
+				got := map[string]string{}
+				for _, ln := range info {
+					f := strings.Split(ln, "|")
+					if len(f) == 3 {
+						k := f[1]
+						if strings.HasPrefix(k, "host:") {
+							k = "host"
+						}
+						got[f[0]] = k + "|" + f[2]
+					}
+				}
+				for mp, w := range c.want {
+					if got[mp] != w {
+						res.Mismatch(Mismatch{Kind: "oracle", What: "the sandbox does not have the mount its own configuration declared (another configuration prepared in the same process shows through) (C05_namespace: exactly the configured entries)", Input: key, Impl: fmt.Sprintf("%s is %q; mountinfo: %s", mp, got[mp], strings.Join(info, ";")), Model: mp + " is " + w, Oracle: "violates"})
+					}
+				}
+				for mp := range got {
+					if (mp == "/w" || mp == "/data") && c.want[mp] == "" {
+						res.Mismatch(Mismatch{Kind: "oracle", What: "the sandbox has a mount its configuration did not declare (C05_namespace)", Input: key, Impl: mp + " is " + got[mp], Oracle: "violates"})
+					}
+				}
+			}
+		}
+	}
 }
